@@ -281,6 +281,8 @@ pub fn run<R: RunnableCode>(
     step_limit: u64,
 ) -> (RealOutcome, u64) {
     concordium_wasm::machine::verif::reset(step_limit);
+    // the engine never makes the linear memory longer than the artifact's maximal size
+    vcore::alloc::set_dirty_bound(art.memory.as_ref().map(|m| m.max_size as usize * 65536).unwrap_or(0));
     let mut interrupts = 0u64;
     let mut res = art.run(host, name, args);
     loop {
